@@ -150,6 +150,8 @@ class History:
         self.step = 0
         self.model = build_model()
         self.building = 0  # >0 while inside a derive call (U-exec)
+        self.shared_asts = {}
+        self.mode_counts = {}
         hist = self
 
         class HDS(EventDataset):
@@ -198,6 +200,7 @@ class History:
                 ds, kind = HDS(f"ds{i}", self.model["PlainEvent"]), "Event"
             else:
                 ds, kind = HDS(f"ds{i}"), "uEvent"
+                ds.untyped = True
             self.datasets.append(ds)
             for m in monitors:
                 if hasattr(m, "on_dataset"):
@@ -221,7 +224,13 @@ class History:
 
     # -- operations
     def derive(self, e, opname, text, rkind, mode):
-        arg = text if mode == "string" else astx.parse_expr(text)
+        if mode == "ast" and e.kind in ("uEvent", "other") and getattr(e.ds, "untyped", False) and self.rnd.random() < 0.5:
+            # untyped datasets: one ast.Lambda OBJECT is handed to several operators / streams (shared sub-ASTs in lambdas too)
+            arg = self.shared_asts.setdefault(text, astx.parse_expr(text))
+            mode = "ast-shared-object"
+        else:
+            arg = text if mode == "string" else astx.parse_expr(text)
+        self.mode_counts[mode] = self.mode_counts.get(mode, 0) + 1
         self.building += 1
         try:
             try:
